@@ -188,6 +188,8 @@ def classify(text, tree=None):
     try:
         v = R.evaluate(ast)
     except R.Undefined as e:
+        if R.MAX_BITS_SEEN[0] > (1 << 16):
+            return ("skip", "an intermediate is beyond the 2^16-bit fragment")
         return ("undefined", str(e))
     except (R.OutOfScope, R.DimErr) as e:
         return ("skip", str(e))
@@ -195,7 +197,7 @@ def classify(text, tree=None):
         return ("skip", "dimensioned")
     if v.f:
         return ("skip", "a root takes part: machine floats by documented design")
-    if R._size(v.v) > (1 << 16):
+    if R._size(v.v) > (1 << 16) or R.MAX_BITS_SEEN[0] > (1 << 16):
         return ("skip", "result beyond the 2^16-bit exactness fragment")
     if tree is not None:
         try:
